@@ -385,6 +385,9 @@ class Machine:
                     return ('lit', bytes(op['bytes']))
                 if op['ty'] == '()':
                     return UNIT
+                pv = self.promoted_value(op)
+                if pv is not None:
+                    return pv
                 return ('constref', op['text'])
             raise Unsupported(op['k'])
 
@@ -635,6 +638,44 @@ class Machine:
                     return True
         return False
 
+    def promoted_value(self, op):
+        """value of a constant operand that refers to a promoted body `<fn>::promoted[i]` (straight-line: constants, references, aggregates)"""
+        import re as _re
+        m = _re.search(r'promoted\[(\d+)\]', op.get('text') or '')
+        if not m or not op.get('uneval'):
+            return None
+        b = self.bodies.get(f"{op['uneval']}::promoted[{m.group(1)}]")
+        if b is None or len(b['blocks']) != 1:
+            return None
+        env = {}
+        for st in b['blocks'][0]['stmts']:
+            if st['k'] != 'assign' or st['place']['proj']:
+                continue
+            rv = st['rv']
+
+            def val(o):
+                if o['k'] in ('copy', 'move'):
+                    v = env.get(o['place']['local'])
+                    return v
+                if o['k'] == 'const':
+                    if o.get('val') is not None:
+                        return INT(o['val'])
+                    if o.get('bytes') is not None:
+                        return ('lit', bytes(o['bytes']))
+                return None
+            if rv['k'] == 'use':
+                env[st['place']['local']] = val(rv['op'])
+            elif rv['k'] == 'ref':
+                env[st['place']['local']] = env.get(rv['place']['local'])
+            elif rv['k'] == 'aggregate' and rv['kind']['agg'] == 'adt':
+                path = {'std::option::Option': 'Option'}.get(rv['kind']['path'], rv['kind']['path'])
+                env[st['place']['local']] = ('adt', path, rv['kind']['variant'], tuple(val(o) for o in rv['ops']))
+            elif rv['k'] == 'aggregate' and rv['kind']['agg'] == 'tuple':
+                env[st['place']['local']] = ('tuple', tuple(val(o) for o in rv['ops']))
+            else:
+                return None
+        return env.get(0)
+
     # ------------------------------------------------------------------ summaries of core functions
     def summary(self, cfg, name, args):
         ae = cfg[3]
@@ -695,6 +736,23 @@ class Machine:
                 return [(('adt', 'Option', 0, ()), a2)]
             b = self.read_at(cfg, pos)           # may raise NeedRead: the byte is fixed, then the statement runs again
             return [(('adt', 'Option', 1, (b,)), a2, None, ((args[0][1], ('sliceiter', ('idx', pos[1] + 1))),))]
+        if name.endswith('<impl [T]>::get') and args and args[0] == ('slice',) and args[1][0] in ('idx', 'int'):
+            pos = args[1] if args[1][0] == 'idx' else ('idx', args[1][1] + cfg[1])
+            r = self.cmp_pos(cfg, 'Lt', pos, ('end', 0), lambda l, rr: l < rr)
+            if len(r) > 1:
+                stack, start_rel, facts, at_end, hyps = cfg
+                raise Refork([(None, (stack, start_rel, facts, a2, hyps)) for (v, a2) in r])
+            (v, a2) = r[0]
+            if not v[1]:
+                return [(('adt', 'Option', 0, ()), a2)]
+            return [(('adt', 'Option', 1, (self.read_at(cfg, pos),)), a2)]
+        if name.endswith('<std::option::Option<T> as std::cmp::PartialEq>::eq') and len(args) == 2 and all(isinstance(a, tuple) and a[0] == 'adt' for a in args):
+            x, y = args
+            if x[2] != y[2]:
+                return [(INT(0), ae)]
+            if x[2] == 0:
+                return [(INT(1), ae)]
+            return self.binop(cfg, 'Eq', x[3][0], y[3][0])
         if name.endswith('then_some'):
             if self.concrete(args[0]):
                 return [(('adt', 'Option', 1, (args[1],)), ae)]
